@@ -114,9 +114,12 @@ const (
 	Open
 	IterNext
 	Open2
+	// PutBig stores a value so long that the record is larger than a whole segment of the ROLL* configurations
+	// (an admissible size: the record gets a segment of its own size). Sequential words only.
+	PutBig
 )
 
-var opNames = [...]string{"Put", "Delete", "Compact", "Sync", "Reopen", "Backup", "Close", "Get", "Has", "Count", "Scan", "GetAppend", "FileSize", "Metrics", "Open", "IterNext", "Open2"}
+var opNames = [...]string{"Put", "Delete", "Compact", "Sync", "Reopen", "Backup", "Close", "Get", "Has", "Count", "Scan", "GetAppend", "FileSize", "Metrics", "Open", "IterNext", "Open2", "PutBig"}
 
 func (k OpKind) String() string { return opNames[k] }
 
@@ -339,9 +342,12 @@ func (s *Sess) apply(o Op) error {
 	s.Steps++
 	s.FS.Tag = s.Steps
 	switch o.Kind {
-	case Put:
+	case Put, PutBig:
 		k := s.Keys[o.Key]
 		v := s.NextValue()
+		if o.Kind == PutBig {
+			v += strings.Repeat("B", 3*RecPut)
+		}
 		kb := append([]byte(nil), k...)
 		vb := []byte(v)
 		err := s.DB.Put(kb, vb)
